@@ -1,7 +1,7 @@
 #![allow(non_camel_case_types, non_snake_case, dead_code)]
 #[tarpc::service]
 pub trait Rej33 {
-    async fn b(a0: i32, a1: String) -> i32;
-    async fn new(a0: i32, a1: String) -> String;
+    async fn b(a0: i32, a1: i32) -> String;
+    async fn new(a0: i32, a1: i32) -> String;
 }
 fn main() {}
